@@ -140,11 +140,32 @@ int cpputest_malloc_get_count()
 
 static TestMemoryAllocator* originalAllocator = NULLPTR;
 
+/* While out of memory is simulated every allocation fails; what was allocated before is still released through (and recognised as coming from) the allocator that served it */
+class OutOfMemoryAllocator : public TestMemoryAllocator
+{
+public:
+    OutOfMemoryAllocator() : TestMemoryAllocator("Out of memory Allocator", "unknown", "unknown"), original_(NULLPTR) {}
+    void setOriginal(TestMemoryAllocator* original) { original_ = original; }
+    virtual char* alloc_memory(size_t, const char*, size_t) CPPUTEST_OVERRIDE { return NULLPTR; }
+    virtual void free_memory(char* memory, size_t size, const char* file, size_t line) CPPUTEST_OVERRIDE { original_->free_memory(memory, size, file, line); }
+    virtual void freeMemoryLeakNode(char* memory) CPPUTEST_OVERRIDE { original_->freeMemoryLeakNode(memory); }
+    virtual TestMemoryAllocator* actualAllocator() CPPUTEST_OVERRIDE { return original_->actualAllocator(); }
+private:
+    TestMemoryAllocator* original_;
+};
+
+static OutOfMemoryAllocator* outOfMemoryAllocator()
+{
+    static OutOfMemoryAllocator allocator;
+    return &allocator;
+}
+
 void cpputest_malloc_set_out_of_memory()
 {
     if (originalAllocator == NULLPTR)
         originalAllocator = getCurrentMallocAllocator();
-    setCurrentMallocAllocator(NullUnknownAllocator::defaultAllocator());
+    outOfMemoryAllocator()->setOriginal(originalAllocator);
+    setCurrentMallocAllocator(outOfMemoryAllocator());
 }
 
 void cpputest_malloc_set_not_out_of_memory()
